@@ -182,6 +182,14 @@ def w_ppm_dsp(ctx, rng, i):
             if nerr == 0:
                 ber = P.BER_analizer("counter", Tx=data, Rx=rx)
                 ctx.check("ber.counter", ber == 0, f"ppm.BER_analizer('counter') = {ber!r} for an error-free sequence")
+    # the electrical waveform itself (no noise component at all), decided twice on the same object: soft, then hard with a given threshold
+    with core.quiet():
+        xd = D.DAC(slots, Vout=2.0, pulse_shape=shape)
+        shp = xd.signal.shape
+        for decision, kw in (("soft", {}), ("hard", {"threshold": 1.0}), ("soft", {})):
+            rx = P.DSP(xd, M, decision=decision, **kw)
+            nerr = int(np.sum(rx.data[: data.size] != data[: rx.len()])) + abs(rx.len() - data.size)
+            ctx.check("ppm.dsp", nerr == 0 and xd.signal.shape == shp, f"ppm.DSP({decision}) on the noise-free DAC waveform (same object used repeatedly): {nerr} wrong bits, signal shape {xd.signal.shape} (was {shp})")
     ctx.case(("ppm", M, sps, shape, n_pol, nsym), sample=dict(sps=sps, R=R, M=M, symbols=nsym, shape=shape, n_pol=n_pol, **desc) if i < 3 else None)
     ctx.bin("M", M)
 
